@@ -416,6 +416,11 @@ class RecipeRun:
                            f"when it is declared: {kind}: {out[1]}", self.first_excuse(('C08',)))
             else:
                 self.V('C16', 'valid_call_rejected', key + (kind,), f"{k} should be accepted ({c}) but raised {kind}: {out[1]}")
+                if k in STEP_CALLS and kind != 'RuntimeError' and all(n in lc.declared for n in self.call_names(c)[0]):
+                    # the direct operation accepts this very step on the current state (the eager dry run above succeeded)
+                    self.V('C08', 'valid_step_refused', (k, kind),
+                           f"{k} is accepted by the direct operation on the current state but the recipe refuses the step when it is "
+                           f"declared: {kind}: {out[1]}", self.first_excuse(('C08',)))
         elif pred == 'reject' and kind == 'ok':
             self.V('C16', 'invalid_call_accepted', key + (why,), f"{k} should be rejected ({why}) but was accepted")
         elif pred == 'RuntimeError' and kind != 'RuntimeError':
